@@ -59,8 +59,12 @@ type kvElection struct {
 	// termCancel ends the context of the current leadership term (heartbeat and
 	// validation loops, OnPromote callback); nil while not leader. Guarded by mu.
 	termCancel context.CancelFunc
-	stopped    bool // a stop call has been made and Start has not been called since (guarded by mu)
-	stopping   int  // stop calls that have not returned yet (guarded by mu)
+	// promoteStarted is closed when the OnPromote goroutine of the current term starts
+	// running; whoever ends the term waits for it before OnDemote may run, so that the
+	// two callbacks are never seen in the wrong order. Nil without a callback. Guarded by mu.
+	promoteStarted chan struct{}
+	stopped        bool // a stop call has been made and Start has not been called since (guarded by mu)
+	stopping       int  // stop calls that have not returned yet (guarded by mu)
 
 	// acquireSem (capacity 1) serializes the acquisition attempts of this instance
 	// (Start, retry rounds, takeover opportunities): overlapping attempts could each
@@ -441,6 +445,16 @@ func (e *kvElection) runContext() context.Context {
 	return e.ctx
 }
 
+// awaitPromoteStarted blocks until the OnPromote goroutine of the term that is being
+// ended has started (it needs no lock to do so). Callers hold e.mu and have just
+// cleared the leadership flag.
+func (e *kvElection) awaitPromoteStarted() {
+	if e.promoteStarted != nil {
+		<-e.promoteStarted
+		e.promoteStarted = nil
+	}
+}
+
 // running reports whether the election has been started and not yet stopped.
 // Callers must hold e.mu.
 func (e *kvElection) running() bool {
@@ -538,6 +552,8 @@ func (e *kvElection) becomeLeader(token string, rev uint64) bool {
 				zap.String("token", token),
 			)...,
 		)
+		started := make(chan struct{})
+		e.promoteStarted = started
 		e.wg.Add(1)
 		go func() {
 			defer e.wg.Done()
@@ -553,6 +569,7 @@ func (e *kvElection) becomeLeader(token string, rev uint64) bool {
 			}()
 			promoteCtx, cancel := context.WithCancel(termCtx)
 			defer cancel()
+			close(started)
 			onPromote(promoteCtx, token)
 		}()
 	}
@@ -648,6 +665,9 @@ func (e *kvElection) becomeFollower() bool {
 
 	wasLeader := e.isLeader.Load()
 	e.isLeader.Store(false)
+	if wasLeader {
+		e.awaitPromoteStarted()
+	}
 	if e.termCancel != nil {
 		e.termCancel()
 		e.termCancel = nil
@@ -750,6 +770,9 @@ func (e *kvElection) Stop() error {
 	}
 
 	e.isLeader.Store(false)
+	if wasLeader {
+		e.awaitPromoteStarted()
+	}
 	e.state.Store(StateStopped)
 	e.lastTransition.Store(time.Now())
 	e.watcherRunning.Store(false)
@@ -836,6 +859,9 @@ func (e *kvElection) StopWithContext(ctx context.Context, opts StopOptions) erro
 	}
 
 	e.isLeader.Store(false)
+	if wasLeader {
+		e.awaitPromoteStarted()
+	}
 	e.state.Store(StateStopped)
 	e.lastTransition.Store(time.Now())
 	e.watcherRunning.Store(false)
